@@ -65,6 +65,18 @@ def tsqr(x, compute_svd=False, finalize_svd=True):
         https://arxiv.org/abs/1301.1071
     """
 
+    if x.numblocks[1] > 1:
+        raise ValueError(
+            "tsqr only supports tall-and-skinny (single column chunk) arrays. "
+            "Consider rechunking so there is only a single column chunk."
+        )
+    if any(c < x.shape[1] for c in x.chunks[0]):
+        raise ValueError(
+            "tsqr requires every row chunk (including the last one) to have at least as many "
+            f"rows as the array has columns ({x.shape[1]}), but row chunks are {x.chunks[0]}. "
+            "Consider rechunking."
+        )
+
     # follows Algorithm 2 from Benson et al, modified for SVD
     Q1, R1 = _qr_first_step(x)
 
